@@ -1,0 +1,9 @@
+// Package vhook holds the verification seams of csvq.
+//
+// Without the build tag "verif" every function in this package is an
+// inlinable no-op and the shipped behaviour is unchanged. With the tag, calls
+// are dispatched to a Controller installed by a simulator (see /verif), or,
+// when no controller is installed, to an optional plan read from the
+// environment variable VERIF_PLAN (used to kill, signal or fault a real csvq
+// process at a named point).
+package vhook
